@@ -514,11 +514,26 @@ def check(idx: Index, rep: Report, tier: str) -> str:
     def reads(fn):
         out = set()
         called = {id(c.func) for c in calls_in(fn, local=False)}
+        # locals bound once to a plain attribute chain (`lhs_op, rhs_op = self.op, other.op`) stand for that chain
+        nstores: dict[str, int] = {}
+        for n in walk_local(fn):
+            if isinstance(n, ast.Name) and isinstance(n.ctx, ast.Store):
+                nstores[n.id] = nstores.get(n.id, 0) + 1
+        alias: dict[str, str] = {}
+        for st in walk_local(fn):
+            if isinstance(st, ast.Assign) and len(st.targets) == 1:
+                tg, v = st.targets[0], st.value
+                pairs = [(tg, v)] if isinstance(tg, ast.Name) else list(zip(tg.elts, v.elts)) if isinstance(tg, ast.Tuple) and isinstance(v, ast.Tuple) and len(tg.elts) == len(v.elts) else []
+                for t_, v_ in pairs:
+                    if isinstance(t_, ast.Name) and nstores.get(t_.id) == 1 and isinstance(v_, ast.Attribute) and attr_chain(v_):
+                        alias[t_.id] = attr_chain(v_)
         for n in walk_local(fn):
             if isinstance(n, ast.Attribute) and id(n) in called and hf.cls is not None and n.attr in hf.cls.methods:
                 continue  # a call of a helper method is not a field read (its arguments are walked separately)
             if isinstance(n, ast.Attribute):
                 ch = attr_chain(n)
+                if ch and ch.split(".")[0] in alias:
+                    ch = alias[ch.split(".")[0]] + ch[len(ch.split(".")[0]) :]
                 if ch and ch.startswith("self.") and ch not in ("self.op",):
                     out.add(ch.split(".items")[0])
         return {c for c in out if not any(o != c and o.startswith(c + ".") for o in out)}
